@@ -209,3 +209,24 @@ func (k *checker) runAfterFailedReadReplay() {
 	}
 	k.c.Eval("spz/after-failed-read", "ok")
 }
+
+// the same cloud to every kind of destination (core.SinkAgreement)
+func (k *checker) runSinks() {
+	if !k.mine() {
+		return
+	}
+	k.runSinksReplay()
+}
+
+func (k *checker) runSinksReplay() {
+	k.c.Nontrivial("destinations")
+	for _, n := range []int{0, 1, 3, 64, 2047, 2048, 2049, 5000} {
+		m := buildSplatMesh(ladderCloud(n))
+		if why := core.SinkAgreement(func(w io.Writer) error { return splat.Write(w, m) }); why != "" {
+			k.c.Eval("splat/destinations", "mismatch")
+			k.fail("splat.Write", "writing a cloud yields its own records (whatever kind of io.Writer receives them)", "destinations", fmt.Sprintf("%d splats: %s", n, why), Case{Kind: "sinks"})
+			return
+		}
+	}
+	k.c.Eval("splat/destinations", "ok")
+}
